@@ -1056,6 +1056,15 @@ impl Selector {
         }
     }
 
+    /// the same names in the same order
+    pub fn same_order(&self, other: &Selector) -> bool {
+        match (self, other) {
+            (Selector::All, Selector::All) => true,
+            (Selector::Some(set), Selector::Some(other_set)) => set.iter().eq(other_set.iter()),
+            _ => false,
+        }
+    }
+
     pub fn selects(&self, value: &String) -> bool {
         if let Selector::Some(set) = self {
             set.contains(value)
@@ -1166,6 +1175,13 @@ impl TryFrom<&Generator> for GenerateResult {
         }
         if !res.apps.is_superset(&generator.apps) {
             return Err(anyhow!("apps don't match"));
+        }
+        // a partition counts positions in the list of selected builds, so it only
+        // means the same for the same selection
+        if generator.partitioner.is_some()
+            && !(res.builders.same_order(&generator.builders) && res.apps == generator.apps)
+        {
+            return Err(anyhow!("partitioned selections don't match"));
         }
         if let GenerateMode::Local(path) = &generator.mode {
             if let GenerateMode::Local(cached_path) = &res.mode {
